@@ -107,6 +107,17 @@ class C11:
             for sx in [b"cdx.json", b"spdx.json", b"syft.json"]:
                 if rng.random() < 0.3:
                     init.append({"p": LAYERS + [b(tn + b".sbom." + sx)], "k": "f", "m": 0o644, "c": b(b"{}")})
+            # layers whose names merely START with the target's name (x-gems, x2, x.old): not the target's
+            if rng.random() < 0.5:
+                for sib in rng.sample([tn + b"-gems", tn + b"2", tn + b".old", tn + b".sbom"], rng.randint(1, 2)):
+                    if rng.random() < 0.5:
+                        init.append({"p": LAYERS + [b(sib)], "k": "d", "m": 0o755})
+                        init.append({"p": LAYERS + [b(sib), b(b"keep")], "k": "f", "m": 0o644, "c": [8]})
+                    if rng.random() < 0.6:
+                        init.append({"p": LAYERS + [b(sib + b".toml")], "k": "f", "m": 0o644, "c": b(b"[types]\n")})
+                    for sx in [b"cdx.json", b"spdx.json", b"syft.json"]:
+                        if rng.random() < 0.5:
+                            init.append({"p": LAYERS + [b(sib + b".sbom." + sx)], "k": "f", "m": 0o644, "c": b(b"{}")})
             if rng.random() < 0.1:
                 # the layers directory itself not writable
                 init[1]["m"] = 0o555
